@@ -115,6 +115,9 @@ def _random_table(rng, i, big):
     by_form = rng.choice(["single", "list", "tuple"]) if nkeys == 1 else rng.choice(["list", "tuple"])
     rev_form = rng.choice(["bool", "list", "tuple"]) if len(set(revs)) == 1 else rng.choice(["list", "tuple"])
     s = _table_spec(i, keycols, revs, rng.random() < 0.5, extra, rng.randint(0, 4), (ksrc, by_form, rev_form))
+    for k in s["by"]:
+        if "vec" in k and s["names"] and rng.random() < 0.5:
+            k["vname"] = rng.choice(s["names"])
     if rng.random() < 0.1 and by_form != "single" and len(s["by"]) < 3:
         # the same key a second time, in the other direction (must change nothing: the first occurrence decides)
         s["by"].append(dict(s["by"][0]))
@@ -286,7 +289,9 @@ def _build(spec):
             keys.append(t[k["col"]])
             model_keys.append({"k": "cells", "cells": _ranks(cols[names.index(k["col"])])})
         elif "vec" in k:
-            v = Vector(list(k["vec"]))
+            # an external key vector may carry the NAME of a stored column (e.g. t.score.fillna(0) keeps the name 'score'):
+            # the sort must go by the vector's values, not by the stored column of that name
+            v = Vector(list(k["vec"]), name=k.get("vname"))
             vecs.append(v)
             keys.append(v)
             model_keys.append({"k": "cells", "cells": _ranks(k["vec"])})
